@@ -17,7 +17,7 @@ def main(tier, seed, replay):
         k.validate_profile("split", 60)
         k.validate_profile("vis_black", 60)
         k.validate_profile("vis_white", 60)
-        k.validate_profile("rel", 80, monitors_only=True)
+        k.validate_profile("rel", 200, monitors_only=True)
         k.validate_profile("rel_kf", 150, monitors_only=True, known=("F17",))
         k.validate_profile("kf_f17", 1, monitors_only=True, known=("F17",))
     else:
